@@ -33,6 +33,8 @@ type LaunchCase struct {
 	GPUType string        `json:"gpu_type,omitempty"`
 	GPUs    []int         `json:"gpus"`
 	Unified bool          `json:"unified"`
+	// NoWGID[d]: the code object does not enable the work-group id SGPR of dimension d
+	NoWGID [3]bool `json:"no_wgid,omitempty"`
 }
 
 func genLaunchCase(t *rapid.T) LaunchCase {
@@ -54,11 +56,17 @@ func genLaunchCase(t *rapid.T) LaunchCase {
 		maxItems = 2500
 	}
 	c.Geo = kgen.GenGeometry(t, kgen.GenOpts{MaxItems: maxItems, Partial: true, ManyGroups: n > 1 && rapid.Bool().Draw(t, "many")}, false)
+	// code objects may leave out the work-group id SGPR of a dimension with a single group
+	for d := 0; d < 3; d++ {
+		if c.Geo.Grid[d] <= uint32(c.Geo.WG[d]) && rapid.Bool().Draw(t, "nowgid") {
+			c.NoWGID[d] = true
+		}
+	}
 	return c
 }
 
-func idDump(g kgen.Geometry) *kgen.Program {
-	return &kgen.Program{Geo: g, InLog2: [2]int{4, 4}, Slots: 3, DataSeed: 1, FinalWait: true, Ops: []kgen.Op{
+func idDump(g kgen.Geometry, noWGID [3]bool) *kgen.Program {
+	return &kgen.Program{Geo: g, NoWGID: noWGID, InLog2: [2]int{4, 4}, Slots: 3, DataSeed: 1, FinalWait: true, Ops: []kgen.Op{
 		{Kind: "store", A: kgen.ValGX, K: 0, Slot: 0},
 		{Kind: "store", A: kgen.ValGY, K: 0, Slot: 1},
 		{Kind: "store", A: kgen.ValGZ, K: 0, Slot: 2},
@@ -69,7 +77,7 @@ func idDump(g kgen.Geometry) *kgen.Program {
 
 // RunLaunchCase runs one case.
 func RunLaunchCase(c LaunchCase) (res stats.Result) {
-	p := idDump(c.Geo)
+	p := idDump(c.Geo, c.NoWGID)
 	comp, err := p.Compile()
 	if err != nil {
 		panic(fmt.Sprintf("harness: %v", err))
@@ -91,6 +99,9 @@ func RunLaunchCase(c LaunchCase) (res stats.Result) {
 	}
 	if c.Unified {
 		res.Labels = append(res.Labels, "work-group-filter")
+	}
+	if c.NoWGID != [3]bool{} {
+		res.Labels = append(res.Labels, "sparse-work-group-id-sgprs")
 	}
 	res.NonTrivial = f.PartialWG || f.RowNotMultipleOf || c.Unified
 	pl, err := plat.New(plat.Spec{Timing: c.Timing, GPUType: c.GPUType, NumGPUs: len(c.GPUs)})
